@@ -445,16 +445,28 @@ void prop(Src& s, Ctx& ctx) {
 
     // ---- the sender's stream
     unsigned nseg = 1 + (unsigned)s.range(0, MAXSEG - 1);
+    // one history in 64: thousands of one-byte segments arriving every other one first, so that far more than a thousand
+    // SACKed islands exist at the same time before the holes are filled in order
+    const bool many_islands = (profile & 0xfc) == 0xfc && (misc & 0x0f) == 0x0f && mode == 0;   // 1 in 1024, AckTracker driven directly
+    if (many_islands) { nseg = 2100 + 2 * (unsigned)(misc & 0x7f); nev = nseg; }
+    const bool long_lived = !many_islands && (profile & 0xf0) == 0xe0;   // one history in 16: every 'large' segment is a giant one
     std::vector<uint32_t> sizes(nseg);
     uint64_t total = 0;
+    bool giant = false;
     for (unsigned i = 0; i < nseg; ++i) {
-        unsigned b = s.u8();
+        unsigned b = many_islands ? 0 : s.u8();
         uint32_t sz;
+        if (long_lived && (b & 7) >= 5) b = (b & 0xf8) | 6;   // every larger segment becomes a giant one
         switch (b & 7) {
             case 0: case 1: case 2: sz = 1; break;
             case 3: case 4: sz = 2 + ((b >> 3) % 15); break;
             case 5: { static const uint32_t MSS[3] = {1460, 536, 1448}; sz = MSS[(b >> 3) % 3]; break; }
-            case 6: sz = 1 + s.u16(); break;
+            case 6:
+                // a long-lived connection: a quarter of these are stretches of 256 MiB .. 512 MiB acknowledged as one segment,
+                // so that a history can advance by several times 2^31 / 2^32
+                if ((b >> 3) >= 24 || long_lived) { sz = (1u << 28) + ((uint32_t)s.u16() << 12); giant = true; }
+                else sz = 1 + s.u16();
+                break;
             default: sz = 1 + (b >> 3); break;
         }
         sizes[i] = sz;
@@ -587,7 +599,11 @@ void prop(Src& s, Ctx& ctx) {
             case 4: idx = (b1 & 1) ? b1 % nseg : (lowest < nseg ? lowest : 0); cnt = 2 + ((b1 >> 1) & 1); break;  // coalesced retransmission
             case 5: idx = b1 % nseg; break;                                                                      // part of a segment
         }
+        if (long_lived && (b0 & 15) < 11 && choice != 0) { choice = 0; idx = lowest < nseg ? lowest : b1 % nseg; cnt = 1; }   // long stretches without loss between the loss episodes
+        if (many_islands) { idx = ev < nseg / 2 ? 2 * ev + 1 : 2 * (ev - nseg / 2); if (idx >= nseg) idx = nseg - 1; cnt = 1; fate = 0; choice = 0; }
         if (idx + cnt > nseg) cnt = nseg - idx;
+        // a conforming receiver's window: nothing is accepted 1.5 * 2^30 or more beyond the cumulative position (well inside the half space)
+        if (segs[idx + cnt - 1].second - rx.cum() >= (3ULL << 29)) { idx = lowest < nseg ? lowest : idx; cnt = 1; choice = 0; }
         al = segs[idx].first;
         ar = segs[idx + cnt - 1].second;
         if (choice == 5 && ar - al > 1) {
@@ -597,7 +613,7 @@ void prop(Src& s, Ctx& ctx) {
             partial_used = true;
         }
         rx.arrive(al, ar);
-        for (unsigned i = 0; i < nseg; ++i) have[i] = rx.got.covers(segs[i].first, segs[i].second);
+        if (!many_islands) for (unsigned i = 0; i < nseg; ++i) have[i] = rx.got.covers(segs[i].first, segs[i].second);   // (the fixed schedule does not look at it)
 
         // the receiver's ACK
         AckPkt a;
@@ -617,6 +633,9 @@ void prop(Src& s, Ctx& ctx) {
             os << (fate == 1 ? "  (ACK packet lost)" : fate == 2 ? "  (ACK packet delivered twice)" : "");
             ctx.log(os.str());
         }
+        // serial-number arithmetic only orders values less than 2^31 apart: an ACK packet is not "lost" when the next one
+        // that gets through would have to move the cumulative ACK by 2^30 or more in one step (long-lived histories)
+        if (fate == 1 && model.init && rx.cum() - model.pos >= (1ULL << 30)) fate = 0;
         if (fate == 1) { ++lost; continue; }
 
         // ---- deliver to the tracker, update the model, compare
@@ -661,7 +680,9 @@ void prop(Src& s, Ctx& ctx) {
             }
             model.on_packet(a.ack, a.blocks);
             max_islands = std::max(max_islands, model.sacked.count());
-            observe(ctx, tag, sut, model, segs, base, b2 | (b3 << 8) | (b1 << 16) | (b0 << 24), qs, step);
+            // (with thousands of islands the full comparison is made on a sample of the steps: every 32nd, around the peak, at the end)
+            if (!many_islands || ev % 32 == 0 || (ev + 6 >= nseg / 2 && ev <= nseg / 2 + 6) || ev + 6 >= nev)
+                observe(ctx, tag, sut, model, segs, base, b2 | (b3 << 8) | (b1 << 16) | (b0 << 24), qs, step);
         }
         if (paylen) my_seq += paylen;
         if (fin) my_seq += 1;
@@ -695,6 +716,9 @@ void prop(Src& s, Ctx& ctx) {
     if (dups) ctx.label("duplicated-ack-packet");
     if (with_fin && delivered) ctx.label("fin");
     if (with_payload) ctx.label("payload");
+    if (many_islands) ctx.label("more-than-1000-islands");
+    if (giant) ctx.label("giant-segments");
+    if (stream_end - base > (1ULL << 31)) ctx.label("history-advances-more-than-2^31");
     if (qs.in_island) ctx.label("q-true-in-island");
     if (qs.below) ctx.label("q-true-below-ack");
     if (qs.unacked) ctx.label("q-false");
